@@ -54,6 +54,14 @@ def _transcribe(sessions, order_ops):
         se = live[i]
         k = op["k"]
         rec = {"k": k}
+        if k == "restart":
+            # connection closed, a new one accepted / opened: the old session object is dropped, a new one takes its place
+            del se
+            live[i] = None
+            live[i] = sansldap.LDAPClient() if sessions[i]["role"] == "c" else sansldap.LDAPServer()
+            rec["state"] = state_name(live[i])
+            out[i].append(rec)
+            continue
         try:
             if k == "call" or k == "reg":
                 args, kw = build_call(op["m"], op.get("a", {}))
@@ -133,6 +141,22 @@ def _registration_semantics(customs_bytes):
                                  "type is registered from the start" % (meth0, cls0.__name__, role_cls.__name__)])
             elif not isinstance(e, ValueError):
                 problems.append(["duplicate-registration-accepted/%s" % cls0.__name__, "duplicate registration raised %s" % type(e).__name__])
+    # a custom control deriving from a public built-in control class: still per session only
+    for role_cls in (sansldap.LDAPClient, sansldap.LDAPServer):
+        fresh = role_cls()
+        data = rfc4511.enc_msg({"t": "ExtendedRequest" if role_cls is sansldap.LDAPServer else "ExtendedResponse", "id": 1, "name": "1.2.3",
+                                "value": None, "result": {"code": 0, "matched_dn": "", "diag": ""},
+                                "controls": [{"t": "Control", "type": "1.2.3.4.9", "critical": True, "value": None}]})
+        if role_cls is sansldap.LDAPClient:
+            guarded(None, "", fresh.extended_request, "1.2.3")
+            fresh.data_to_send()
+        ok, r = guarded("registration-leaked/SubControl", "receive of a message carrying OID 1.2.3.4.9 on a session that never registered it",
+                        fresh.receive, data)
+        if ok and r and r[0].controls and type(r[0].controls[0]).__name__ != "LDAPControl":
+            problems.append(["registration-leaked/SubControl", "a session that never registered it decodes OID 1.2.3.4.9 as %s" % type(r[0].controls[0]).__name__])
+        fresh2 = role_cls()
+        guarded("second-session-registration-refused/SubControl", "first register_control(SubControl) on a fresh %s" % role_cls.__name__,
+                fresh2.register_control, ct.BY_NAME["SubControl"])
     for typ in TYPES:
         a_c, a_s = sansldap.LDAPClient(), sansldap.LDAPServer()
         b_c, b_s = sansldap.LDAPClient(), sansldap.LDAPServer()
@@ -250,7 +274,7 @@ class C19(PropBase):
     REQUIRED_REACH = ("custom_pdu_on_unregistered_session", "custom_pdu_on_registered_session", "duplicate_registration",
                       "registration_after_traffic", "same_type_registered_on_two_sessions", "interleavings_compared",
                       "registration_semantics_checked", "unknown_result_code_on_two_sessions", "same_id_different_class_on_two_sessions",
-                      "send_failed_while_encoding", "shared_recv_buffer_with_residue", "envelope_name_on_other_kind")
+                      "send_failed_while_encoding", "shared_recv_buffer_with_residue", "envelope_name_on_other_kind", "session_restarted")
 
     # ---------------------------------------------------------------- generation (no library code here)
 
@@ -290,6 +314,12 @@ class C19(PropBase):
     def _script_op(self, g, rng):
         if g.get("queue"):
             return g["queue"].pop(0)
+        if rng.random() < 0.04 or (g["model"].st == "CL" and rng.random() < 0.5):
+            # the connection ends; the application creates a fresh session object (with fresh registrations to make)
+            g["model"] = Model(g["role"])
+            g["regs"] = set()
+            g["next_req"] = 1
+            return {"k": "restart"}
         model = g["model"]
         role = g["role"]
         gen = Gen(rng, big=0.05, customs=sorted(x for x in g["regs"] if x in TYPES))
@@ -491,6 +521,10 @@ class C19(PropBase):
             traffic = False
             for j, op in enumerate(v):
                 rec = base[str(i)][j]
+                if op["k"] == "restart":
+                    seen = set()
+                    traffic = False
+                    continue
                 if op["k"] == "reg":
                     if op["a"]["type"] in seen:
                         st.hit("duplicate_registration")
@@ -510,6 +544,8 @@ class C19(PropBase):
                     pass
         for i, v in per.items():
             for op in v:
+                if op["k"] == "restart":
+                    st.hit("session_restarted")
                 if op.get("part") and op.get("ba"):
                     st.hit("shared_recv_buffer_with_residue")
                 if op["k"] == "recv" and "8a16312e332e36" in op["hex"] or (op["k"] == "recv" and "8a09312e322e33" in op["hex"]):
